@@ -26,13 +26,20 @@ Qed.
 Lemma run_body_spec sw b : run_body sw b = spec_body b.
 Proof. apply run_stmts_spec. Qed.
 
+Lemma stmt_calls_no_terminal i s : terminals (stmt_calls i s) = [].
+Proof. unfold stmt_calls. destruct (s_op s), (s_fault s) as [| |[]]; reflexivity. Qed.
+
+Lemma stmt_calls_no_begin i s ok : ~ In (Begin ok) (stmt_calls i s).
+Proof.
+  unfold stmt_calls. destruct (s_op s), (s_fault s) as [| |[]]; simpl; intuition discriminate.
+Qed.
+
 Lemma spec_stmts_no_terminal : forall ss i fin, terminals (snd (spec_stmts i ss fin)) = [].
 Proof.
-  induction ss as [|s r IH]; intros i fin; simpl; [reflexivity|].
-  destruct (s_fail s).
-  - destruct (s_react s); try reflexivity.
-    specialize (IH (S i) fin). destruct (spec_stmts (S i) r fin) as [o cs]. simpl in *. exact IH.
-  - specialize (IH (S i) fin). destruct (spec_stmts (S i) r fin) as [o cs]. simpl in *. exact IH.
+  induction ss as [|s r IH]; intros i fin; cbn [spec_stmts]; [reflexivity|].
+  specialize (IH (S i) fin).
+  destruct (s_fail s); [destruct (s_react s)|]; try destruct (spec_stmts (S i) r fin) as [o cs]; cbn [snd] in *;
+    rewrite ?terminals_app, ?stmt_calls_no_terminal, ?IH; reflexivity.
 Qed.
 
 Lemma run_body_no_terminal sw b : terminals (snd (run_body sw b)) = [].
@@ -41,11 +48,11 @@ Proof. rewrite run_body_spec. apply spec_stmts_no_terminal. Qed.
 (* the body's statements are Exec calls only *)
 Lemma spec_stmts_no_begin : forall ss i fin ok, ~ In (Begin ok) (snd (spec_stmts i ss fin)).
 Proof.
-  induction ss as [|s r IH]; intros i fin ok; simpl; [tauto|].
-  destruct (s_fail s).
-  - destruct (s_react s); simpl; try (intros [H|[]]; discriminate).
-    specialize (IH (S i) fin ok). destruct (spec_stmts (S i) r fin) as [o cs]. simpl in *. intros [H|H]; [discriminate|tauto].
-  - specialize (IH (S i) fin ok). destruct (spec_stmts (S i) r fin) as [o cs]. simpl in *. intros [H|H]; [discriminate|tauto].
+  induction ss as [|s r IH]; intros i fin ok; cbn [spec_stmts]; [simpl; tauto|].
+  specialize (IH (S i) fin ok).
+  destruct (s_fail s); [destruct (s_react s)|]; try destruct (spec_stmts (S i) r fin) as [o cs]; cbn [snd] in *;
+    try (apply stmt_calls_no_begin);
+    (intro H; apply in_app_or in H as [H|H]; [eapply stmt_calls_no_begin; exact H|tauto]).
 Qed.
 
 (* ---- Begin and database/sql's retry ---- *)
@@ -843,4 +850,49 @@ Proof.
   destruct (scan_tc_succeeds (unwrap_fields fs) _ (alloc_dest (unwrap_fields fs) d0)
               (by_name_copyable_tc fs m Hm Hnd cols row Hc)) as [d' Hd].
   rewrite Hd. exists d'. reflexivity.
+Qed.
+
+(* ---- strict mode with exactly matching arity leaves no field blank (untagged AND mixed tagging) ---- *)
+Lemma dec_nonempty z : z <> 0%Z -> dec z <> EmptyString.
+Proof.
+  intro Hz. unfold dec. destruct z as [|p|p]; [contradiction| |]; simpl.
+  - destruct (Pos.to_uint p) eqn:E; simpl; discriminate.
+  - discriminate.
+Qed.
+
+Lemma conv_nonzero k c v : conv k c None = (v, true) -> cell_nonzero c = true -> nonblank k v = true.
+Proof.
+  destruct k, c; simpl; intros H Hn; inversion H; subst; simpl; try discriminate; try exact Hn; try reflexivity.
+  all: apply negb_true_iff in Hn; apply Z.eqb_neq in Hn; apply dec_nonempty in Hn;
+    apply negb_true_iff; destruct (String.eqb_spec (dec z) ""); [contradiction|reflexivity].
+Qed.
+
+Lemma by_pos_filled : forall lv i row d1 d, by_pos_ok i lv row d1 d = true ->
+  List.length row = List.length lv -> forallb cell_nonzero row = true -> filled_from i lv d = true.
+Proof.
+  induction lv as [|pk lv IH]; intros i row d1 d H Hl Hn; [reflexivity|].
+  destruct row as [|c row]; [discriminate|]. cbn [by_pos_ok] in H. cbn [filled_from forallb] in *.
+  apply andb_true_iff in H as [H1 H2]. apply andb_true_iff in Hn as [Hc Hn].
+  destruct (conv (snd pk) c None) as [v ok] eqn:E. apply andb_true_iff in H1 as [Hok Hv]. subst ok.
+  apply andb_true_iff. split; [|eapply IH; eauto].
+  pose proof (conv_nonzero _ _ _ E Hc) as Hnb.
+  destruct (nth i d None) as [x|], v as [y|]; simpl in Hv, Hnb |- *; try discriminate.
+  assert (x = y).
+  { destruct x, y; simpl in Hv; try discriminate; try reflexivity.
+    - apply Z.eqb_eq in Hv. congruence.
+    - apply String.eqb_eq in Hv. congruence.
+    - apply andb_true_iff in Hv as [Hb Hz]. apply Bool.eqb_prop in Hb. apply Z.eqb_eq in Hz. congruence. }
+  subst. exact Hnb.
+Qed.
+
+Lemma strict_exact_fills fs cols row d0 d :
+  all_tagged fs = false -> List.length cols = List.length (unwrap_fields fs) ->
+  List.length cols = List.length row -> List.length d0 = List.length (unwrap_fields fs) ->
+  forallb cell_nonzero row = true ->
+  fill_struct fs true cols row d0 = (d, Ok tt) ->
+  filled_from 0 (unwrap_fields fs) d = true.
+Proof.
+  intros Hat Hnc Hl Hd Hn H.
+  apply (by_pos_filled (unwrap_fields fs) 0 row (alloc_dest (unwrap_fields fs) d0) d); [|lia|exact Hn].
+  eapply by_position_refines; try eassumption. lia.
 Qed.
